@@ -373,7 +373,7 @@ def obligations(tier, seed):
                     nn -= 1
                 obs.append(Ob(PROP, 'lifetimes', dict(desc=d, n=nn, parent=parent), budget=b, group='lifetimes:' + parent, bound=dict(items=nn, parent=parent, pipeline=C.show(d))))
     for j in ('zip', 'combine_latest', 'merge'):
-        for d in ([['tee', j, [[['identity']], [['fill_none']]]]], [['tee', j, [[['fill_none'], ['filter_even']], [['do_action']], [['count']]]]]):
+        for d in ([['tee', j, [[['identity']], [['fill_none']]]]], [['tee', j, [[['do_action']], [['count']], [['fill_none']]]]]):
             obs.append(Ob(PROP, 'grouped', dict(desc=d, n=3, g=2, opt=True), budget=b, group='grouped:optional items', bound=dict(items=3, groups=2, values='int or None', pipeline=C.show(d))))
     ts = [[['take2'], ['count'], ['map_inc']], [['scan_add'], ['first'], ['scan_max']], [['duc'], ['take1'], ['to_list_sum']], [['batch2_sum'], ['last']], [['count'], ['scan_add_r']]]
     for d in ts:
